@@ -519,10 +519,62 @@ func wordFamily(maxWords int) fw.Family {
 	}
 }
 
+// gapFamily: exactly-n-or-fewer words of width 1..3 with an independently chosen glue in every gap.
+func gapFamily(maxWords int) fw.Family {
+	glues := []oracle.KPItem{glue(1, 1, 1), glue(1, 2, 0), glue(2, 2, 0), glue(2, 1, 1)}
+	// index = sum over shorter lengths + (words base 3, gaps base 4)
+	count := func(n int) int64 { // paragraphs of exactly n words
+		c := int64(1)
+		for i := 0; i < n; i++ {
+			c *= 3
+		}
+		for i := 0; i < n-1; i++ {
+			c *= int64(len(glues))
+		}
+		return c
+	}
+	total := int64(0)
+	for n := 1; n <= maxWords; n++ {
+		total += count(n)
+	}
+	build := func(i int64) []oracle.KPItem {
+		n := 1
+		for i >= count(n) {
+			i -= count(n)
+			n++
+		}
+		var items []oracle.KPItem
+		for j := 0; j < n; j++ {
+			if j > 0 {
+				items = append(items, glues[i%int64(len(glues))])
+				i /= int64(len(glues))
+			}
+			items = append(items, box(float64(1+i%3)))
+			i /= 3
+		}
+		return append(items, finishing()...)
+	}
+	return fw.Family{
+		Name: "words-with-independent-gaps+finish", N: total,
+		Check: func(i int64, r *fw.R) {
+			items := build(i)
+			r.NontrivialIdx()
+			for _, w := range widths {
+				CheckOne(r, items, w)
+			}
+			r.Count("sequence_x_width", int64(len(widths)))
+		},
+		Desc: func(i int64) string {
+			items := build(i)
+			return FmtItems(items) + " features=" + features(items, Params())
+		},
+	}
+}
+
 func families(tier string) []fw.Family {
-	n, m, d := 5, 3, 6
+	n, m, d, g := 5, 3, 6, 6
 	if tier == "thorough" {
-		n, m, d = 6, 5, 8
+		n, m, d, g = 6, 5, 8, 7
 	}
 	fs := []fw.Family{
 		seqFamily("base-alphabet+finish", baseAlphabet(), n),
@@ -530,8 +582,10 @@ func families(tier string) []fw.Family {
 		seqFamily("reduced-alphabet-long+finish", reducedAlphabet(), d),
 		withTunables(seqFamily("reduced-alphabet-long+finish", reducedAlphabet(), d-1), tunables{1, 1, 10000, 10000}),
 		withTunables(seqFamily("reduced-alphabet-long+finish", reducedAlphabet(), d-1), tunables{3, 10, 3000, 300}),
-		wordFamily(d),
-		withTunables(wordFamily(d-1), tunables{1, 1, 10000, 10000}),
+		wordFamily(d-1),
+		withTunables(wordFamily(d-2), tunables{1, 1, 10000, 10000}),
+		gapFamily(g),
+		withTunables(gapFamily(g), tunables{0.5, 10, 100, 100}),
 		unterminatedFamily(baseAlphabet(), 4),
 	}
 	// development aid: C17_ONLY=<substring> restricts the run to the matching families
